@@ -768,6 +768,13 @@ func (c *Ctx) checkTryDispatch() {
 				if l, ok := as.Lhs[0].(*ast.SelectorExpr); ok && l.Sel.Name == "RunMode" {
 					if r, ok := fdefs.resolve1(info, as.Rhs[0]).(*ast.SelectorExpr); ok && r.Sel.Name == "RunMode" {
 						n++
+					} else if id, isID := unparen(as.Rhs[0]).(*ast.Ident); isID && len(fdefs[info.ObjectOf(id)]) > 1 {
+						// one store of a local that was given the scope's mode and then, conditionally, the block's (R05g decides the precedence)
+						for _, d := range fdefs[info.ObjectOf(id)] {
+							if r, ok := unparen(d).(*ast.SelectorExpr); ok && d != nil && r.Sel.Name == "RunMode" {
+								n++
+							}
+						}
 					}
 				}
 			}
